@@ -56,8 +56,8 @@ META = {
                   "excluded from the replay, still checked by the oracle). 'Parents unchanged' is structural in a functional model and is covered by the frame check "
                   "and the driver's snapshots, not by a theorem. Hypotheses: lb <= ub for clip_range, >= 2 parents for PCX/UNDX, duplicate-free equal-set parents "
                   "for PMX, duplicate-free `elements` for Replace. Rejected configurations (not violations): Real(lb,lb) with PM, PCX/UNDX with one parent, "
-                  "Subset(elements,0) with Replace, an int `probability` on a problem without a variable of the operator's type, bounds whose difference overflows with UM. "
-                  "No axioms.",
+                  "Subset(elements,0) with Replace, an int `probability` on a problem without a variable of the operator's type. "
+                  "UM on bounds whose width overflows is NOT rejected any more (repaired in f6dc0d6: interpolation lb*(1-r)+ub*r, modelled over exact Q). No axioms.",
     "technique": "Coq proofs over executable operator models with an explicit random tape + tape-replay correspondence (vm_compute) + AST frame check + oracle",
 }
 
@@ -292,6 +292,8 @@ def tape_lit(tape):
             out.append("DGauss %s" % C.xq_lit(e[1]))
         elif k == "V":
             out.append("DVal %s" % fval_lit(e[1]))
+        elif k == "R":
+            out.append("DRand %s" % C.xq_lit(e[1]))
         else:
             raise ValueError(k)
     return C.list_lit(out)
@@ -395,7 +397,14 @@ def patched(inst, rec):
             return getattr(inst, name)(*a, **k)
         return f
 
-    for name in ("random", "randint", "choice", "choices", "shuffle", "sample", "normalvariate", "triangular",
+    def w_random():
+        r = inst.random()
+        if not rec.suppress:
+            rec.tape.append(("R", r))
+        return r
+
+    setp(_random, "random", w_random)
+    for name in ("randint", "choice", "choices", "shuffle", "sample", "normalvariate", "triangular",
                  "betavariate", "expovariate", "gammavariate", "lognormvariate", "vonmisesvariate", "paretovariate",
                  "weibullvariate", "randbytes"):
         if hasattr(_random, name):
@@ -843,6 +852,18 @@ def inexact_reason(opspec, tspecs, pspecs, r):
     w = walk(opspec)
     if w:
         return w
+    if "UM" in names:
+        rs_ = [e[1] for e in r["tape"] if e[0] == "R"]
+        for t in tspecs:
+            if t["k"] == "Real":
+                lb, ub = float(t["lb"]), float(t["ub"])
+                ovf = Fraction(ub) - Fraction(lb) >= Fraction(2) ** 1024 - Fraction(2) ** 970
+                if math.isinf(ub - lb) != ovf:
+                    return "UM: isinf(ub - lb) disagrees with the exact overflow threshold"
+                if ovf:
+                    for rr in rs_:
+                        if Fraction(lb * (1.0 - rr) + ub * rr) != Fraction(lb) * (1 - Fraction(rr)) + Fraction(ub) * Fraction(rr):
+                            return "UM: the float interpolation lb*(1-r)+ub*r is not exact"
     if "SBX" in names and len(pspecs) >= 2:
         for i, t in enumerate(tspecs):
             if t["k"] == "Real":
@@ -879,6 +900,8 @@ BOUNDS = [(0.0, 1.0), (0.0, 1.0), (-1.0, 1.0), (-5.0, 5.0), (0.0, 8.0), (-8.0, -
           (-1e308, 1e308), (-HUGE, HUGE), (0.0, 1e-300), (1.0, 1.0000000000000002), (-3.0, 1e6),
           (0.0, 5e-324), (-1e-300, 1e-300), (1e300, 1.0000001e300), (-2.0 ** -1060, 2.0 ** -1060)]
 SMALL_BOUNDS = [(0.0, 1.0), (0.0, 1.0), (-1.0, 1.0), (-4.0, 4.0), (0.0, 8.0), (0.25, 0.75)]
+OVERFLOW_BOUNDS = [(-1.7e308, 1.7e308), (-1e308, 1e308), (-HUGE, HUGE), (-2.0 ** 1023, 2.0 ** 1023), (-1.5 * 2.0 ** 1023, 2.0 ** 1023),
+                   (-2.0 ** 1023, 1.0), (-HUGE, 2.0 ** 970)]
 PROBS = [1.0, 1.0, 0.5, 0.25, 0.3, 0.9, 0.0, 1]
 ETAS = [20.0, 15.0, 0.5, 100.0, 0.0, 1e-9, 1e6, 1.0]
 ELEMENT_POOLS = [("int", lambda n: list(range(n))),
@@ -933,7 +956,7 @@ def rand_real(rng, lb, ub, style):
     if w == math.inf or w != w:
         return rng.choice([lb, ub, 0.0, lb / 2, ub / 2, 1.0, -1e300, 1e300 * rng.random()])
     if style == "grid":
-        return lb + w * rng.randrange(0, 65) / 64.0
+        return min(max(lb + w * (rng.randrange(0, 65) / 64.0), lb), ub)
     x = lb + w * rng.random()
     return min(max(x, lb), ub)
 
@@ -1067,10 +1090,9 @@ def gen_case(rng, opname, fixed=None, nvars=None):
         sp = fixed or {"name": opname, "probability": rng.choice(PROBS + [1, 2])}
         if opname == "PM" and fixed is None:
             sp["distribution_index"] = rng.choice(ETAS)
-        if opname == "UM":
-            for t in ts:     # rejected configuration for UM: ub - lb overflows (random.uniform itself leaves the range)
-                if t["k"] == "Real" and (t["ub"] - t["lb"]) == math.inf:
-                    t["lb"], t["ub"] = -1e300, 1e300
+        if opname == "UM" and nvars is None and rng.random() < 0.5:
+            # bounds whose width overflows (um_mutation interpolates with random.random(), fix f6dc0d6)
+            ts[rng.randrange(len(ts))] = dict(zip(("k", "lb", "ub"), ("Real",) + rng.choice(OVERFLOW_BOUNDS)))
         st = rng.choice(["random", "bound", "grid"])
         return sp, ts, gen_parents(rng, ts, rng.choice([1, 1, 2]), st), st, malformed
     if opname in ("UniformMutation", "NonUniformMutation"):
@@ -1172,9 +1194,6 @@ def gen_case(rng, opname, fixed=None, nvars=None):
         pool = [{"name": "PM", "probability": rng.choice([1, 0.5])}, {"name": "BitFlip", "probability": rng.choice([1, 0.5])},
                 {"name": "Swap", "probability": 0.5}, {"name": "Insertion", "probability": 0.5}, {"name": "Replace", "probability": 0.5},
                 {"name": "UM", "probability": 0.5}]
-        for t in ts:
-            if t["k"] == "Real" and (t["ub"] - t["lb"]) == math.inf:
-                t["lb"], t["ub"] = -1e300, 1e300
         vs = [pool[i] for i in sorted(rng.sample(range(len(pool)), rng.randrange(1, 5)))]
         sp = fixed or {"name": "CompoundMutation", "variators": vs}
         st = rng.choice(["random", "bound"])
@@ -1185,9 +1204,6 @@ def gen_case(rng, opname, fixed=None, nvars=None):
               {"name": "DE", "probability": 0.5},
               {"name": "SPX", "nparents": 3, "noffspring": 2},
               {"name": "UM", "probability": 0.5}]
-        for t in ts:
-            if (t["ub"] - t["lb"]) == math.inf:
-                t["lb"], t["ub"] = -1e300, 1e300
         vs = vs[:rng.randrange(2, 5)]
         sp = fixed or {"name": "Multimethod", "variators": vs, "next": rng.randrange(len(vs)), "update_frequency": rng.choice([1, 3, 100])}
         st = rng.choice(["random", "bound", "identical"])
@@ -1256,7 +1272,7 @@ def shippable(r):
     if r["exc"] is not None or r["unexpected"]:
         return False
     for e in r["tape"]:
-        if e[0] in ("U", "G", "V"):
+        if e[0] in ("U", "G", "V", "R"):
             if not isinstance(e[1], (int, float)) or isinstance(e[1], bool):
                 return False
             if e[0] != "V" and (e[1] != e[1]):
@@ -1461,7 +1477,7 @@ def run(ctx):
         "PCX / UNDX are given >= 2 parents (one parent divides by k-1 = 0: rejected input)",
         "Subset(elements, 0) with Replace and Permutation([]) with Swap/Insertion/PMX call randrange(0): rejected configurations",
         "an int `probability` (PM, UM, BitFlip) needs at least one variable of the operator's type, else ZeroDivisionError: rejected configuration (reported to the coordinator)",
-        "UM on bounds whose difference overflows (e.g. Real(-1e308, 1e308)): random.uniform itself returns inf/NaN and UM does not clip: rejected configuration (reported to the coordinator)",
+        "UM on bounds whose width overflows interpolates lb*(1-r)+ub*r (fix f6dc0d6): modelled over exact Q; replay keeps the calls whose float interpolation is exact (counted), the oracle judges all",
         "PMX parents are duplicate-free permutations of the same declared elements; `elements` of a Subset type is duplicate-free",
         "the scalar float formulas (pow, sqrt, gauss-scaled sums) are not interpreted by the model: their results enter as DVal tape entries; freedom from exceptions inside them rests on the oracle",
         "PCX/UNDX guard structure is modelled over exact rationals; calls whose is_zero tests are rounding-sensitive are excluded from the replay (counted in input_distribution.*.discarded_inexact) and checked by the oracle only",
